@@ -33,7 +33,7 @@ func (propC05) ID() string { return "C05" }
 func c05Cfg() *DeclCfg {
 	return &DeclCfg{
 		Kinds: []string{"bool", "int", "int", "int32", "uint", "float64", "string", "string", "duration", "[]int", "[]string", "[]string", "map[string]int", "map[string]string",
-			"*int", "*string", "um", "[]um", "func(string)", "func(int)", "filename", "uint8", "int64", "[]float64", "map[int]string"},
+			"*int", "*string", "um", "[]um", "func(string)", "func(int)", "filename", "uint8", "int64", "[]float64", "map[int]string", "ulist"},
 		MinOpts: 1, MaxOpts: 4, MaxGroups: 2, MaxSub: 2, MaxCmds: 2, MaxDepth: 2, Exec: true,
 		Env: true, Defaults: true, Optional: true, Choices: true, Hidden: true, Namespaces: true, Init: true, InitMulti: false, IniName: true,
 		ParserOpts: []uint{0, optHelpFlag, optHelpFlag | optPassDoubleDash, optIgnoreUnknown | optHelpFlag, optHelpFlag | optPrintErrors | optPassDoubleDash},
@@ -66,6 +66,14 @@ func c05Decl(r *Rng) *DeclSpec {
 				if xr.Chance(1, 3) {
 					o.Default = []BStr{BStr(genPlainText(xr, ak))}
 				}
+			}
+			// a default tag that contains the env delimiter is used as written
+			if o.EnvDelim != "" && (o.Kind == "[]string" || o.Kind == "ulist" || o.Kind == "map[string]string" || o.Kind == "func(string)") && xr.Chance(1, 2) {
+				t := "p" + o.EnvDelim + "q"
+				if isMapKind(o.Kind) {
+					t = "k:" + t
+				}
+				o.Default = []BStr{BStr(t)}
 			}
 			// env on more options, delimiters on multi-valued ones
 			if o.Env == "" && !isFuncKind(o.Kind) && xr.Chance(1, 3) {
